@@ -33,6 +33,8 @@
 //	c02.ireduce_amd64       amd64/machine.go LowerInstr                        the expression statements of the Ireduce (i32.wrap_i64) case
 //	c04.table_grow_fill     wasm/table.go TableInstance.Grow                    the seeding assignment and the doubling loop that fill the new region
 //	c02.interp_grow_slot    interpreter/interpreter.go callNativeFunc + popMemoryOffset   what memory.grow pushes; how a static offset is added to a popped address
+//	c07.cache_hit_restore   wazevo/engine_cache.go getCompiledModule              per-module state restored after a file-cache hit: unconditional assignments, and those under a condition
+//	c16.dirfs_rename        sysfs/dirfs_supported.go dirFS.Rename                  the statements of the function
 package main
 
 import (
@@ -641,6 +643,50 @@ func main() {
 			}
 		}
 		add("c02.interp_grow_slot", strings.Join(pushes, " | ")+" ;; "+strings.Join(body, " ; "))
+	}
+	{
+		gc := fn(*repo, "internal/engine/wazevo/engine_cache.go", "getCompiledModule", "engine")
+		// the LAST `if ok { … }` of the function: the file-cache hit
+		var hit *ast.IfStmt
+		for _, st := range gc.Body.List {
+			if ifs, ok := st.(*ast.IfStmt); ok && src(ifs.Cond) == "ok" {
+				hit = ifs
+			}
+		}
+		if hit == nil {
+			die("getCompiledModule: no `if ok` block")
+		}
+		var uncond, cond []string
+		for _, st := range hit.Body.List {
+			switch x := st.(type) {
+			case *ast.AssignStmt:
+				if strings.HasPrefix(src(x.Lhs[0]), "cm.") {
+					uncond = append(uncond, src(x))
+				}
+			case *ast.IfStmt, *ast.SwitchStmt:
+				var fields []string
+				ast.Inspect(x, func(n ast.Node) bool {
+					if as, ok := n.(*ast.AssignStmt); ok && strings.HasPrefix(src(as.Lhs[0]), "cm.") && !strings.Contains(src(as.Lhs[0]), "[") {
+						fields = append(fields, src(as.Lhs[0]))
+					}
+					return true
+				})
+				head := "switch"
+				if ifs, ok := x.(*ast.IfStmt); ok {
+					head = "if " + src(ifs.Cond)
+				}
+				cond = append(cond, head+": "+strings.Join(fields, ", "))
+			}
+		}
+		add("c07.cache_hit_restore", strings.Join(uncond, "; ")+" ;; "+strings.Join(cond, " | "))
+	}
+	{
+		rn := fn(*repo, "internal/sysfs/dirfs_supported.go", "Rename", "dirFS")
+		var sts []string
+		for _, st := range rn.Body.List {
+			sts = append(sts, src(st))
+		}
+		add("c16.dirfs_rename", strings.Join(sts, " | "))
 	}
 	add("c09.compiled_fields", "wazevo.compiledModule: "+structFields(*repo, "internal/engine/wazevo/engine.go", "compiledModule")+
 		" ;; interpreter.compiledFunction: "+structFields(*repo, "internal/engine/interpreter/interpreter.go", "compiledFunction"))
